@@ -12,4 +12,7 @@ EXPLANATION = (
 ASSUMED = ["A-OBJ-CLASS (type()/type.__new__/int.__new__): the statements of EnumType.__new__ before the member loop are not verified",
            "pickle protocol and JSON paths: bounded stand-in"]
 from pyvc.check import standin_bounded
-BOUNDED = [standin_bounded("C20")]
+from pyvc.check import external_bounded
+BOUNDED = [standin_bounded("C20"),
+           external_bounded("deep-schema:C20", "standin.deep", ["C20", "--n", "150"], ["C20", "--n", "800"],
+                            "twin classes with different enums at the same field numbers, both first-use orders: decoded values belong to the field's own enum")]
